@@ -5,40 +5,7 @@ import SonicSpec.Proofs.AstEncode
 set_option linter.unusedSimpArgs false
 namespace SonicSpec.Ast
 
-/-! ### key lookup: the linear search of `linkedPairs.Get` against `findKey` on the abstraction -/
-
-theorem linearGet_spec (key : Key) :
-    ∀ st : List PairM, (∀ q ∈ st, pairLive q = false → q.2.1 ≠ key) →
-      match linearGet key st with
-      | some p => ∃ q, st[p]? = some q ∧ pairLive q = true ∧ q.2.1 = key ∧
-          findKey key (absPairs st) = some (countLive pairLive (st.take p))
-      | none => findKey key (absPairs st) = none
-  | [], _ => by simp [linearGet, absPairs, findKey]
-  | (h, k, v) :: xs, hd => by
-    have hd' : ∀ q ∈ xs, pairLive q = false → q.2.1 ≠ key := fun q hq => hd q (by simp [hq])
-    have ih := linearGet_spec key xs hd'
-    unfold linearGet
-    by_cases hk : k = key
-    · subst hk
-      have hv : v.live = true := by
-        by_cases hv : v.live
-        · exact hv
-        · exact absurd rfl (hd (h, k, v) (by simp) (by simpa [pairLive] using hv))
-      simp [hv, pairLive, absPairs, findKey, countLive]
-    · simp only [hk, if_false]
-      cases hl : linearGet key xs with
-      | none =>
-        simp only [hl] at ih
-        by_cases hv : v.live <;> simp [absPairs, hv, findKey, hk, ih]
-      | some p =>
-        simp only [hl] at ih
-        obtain ⟨q, h1, h2, h3, h4⟩ := ih
-        simp only [Option.map_some]
-        refine ⟨q, by simpa using h1, h2, h3, ?_⟩
-        by_cases hv : v.live
-        · simp [absPairs, hv, findKey, hk, h4, List.take_succ_cons, countLive_cons, pairLive]
-          omega
-        · simp [absPairs, hv, findKey, hk, h4, List.take_succ_cons, countLive_cons, pairLive]
+/-! ### key lookup -/
 
 theorem findKey_getElem {β : Type} (k : Key) :
     ∀ (kvs : List (Key × β)) (i : Nat), findKey k kvs = some i → ∃ v, kvs[i]? = some (k, v)
@@ -60,7 +27,7 @@ theorem findKey_getElem {β : Type} (k : Key) :
 theorem childL_spec (v : Tree) : (childL v).abs = v ∧ (childL v).live = true ∧ (childL v).repOk = true := by
   cases v with
   | arr xs => cases xs <;> simp [childL, NodeM.abs, NodeM.live, NodeM.repOk, absElems, repElems, countLive]
-  | obj kvs => cases kvs <;> simp [childL, NodeM.abs, NodeM.live, NodeM.repOk, absPairs, repPairs, countLive]
+  | obj kvs => cases kvs <;> simp [childL, NodeM.abs, NodeM.live, NodeM.repOk, absPairs, repPairs, countLive, ixOk]
   | _ => simp [childL, NodeM.abs, NodeM.live, NodeM.repOk]
 
 theorem childL_elems (xs : List Tree) :
@@ -89,10 +56,6 @@ def NodeM.isRaw : NodeM → Bool
   | .raw _ _ => true
   | _ => false
 
-theorem mkObject_spec (st : List PairM) (hr : repPairs st = true) (hl : ∀ p ∈ st, pairLive p = true) :
-    (mkObject st).abs = .obj (absPairs st) ∧ (mkObject st).repOk = true := by
-  simp [mkObject, NodeM.abs, NodeM.repOk, hr, countLive_all _ _ hl]
-
 theorem parse1_spec (lock : Bool) (v : Tree) :
     (parse1 lock v).abs = v ∧ (parse1 lock v).repOk = true ∧ (parse1 lock v).isRaw = false := by
   cases v with
@@ -107,7 +70,7 @@ theorem parse1_spec (lock : Bool) (v : Tree) :
           countLive_all _ _ h3, List.length_map, decide_true, and_self]
   | obj kvs =>
     cases kvs with
-    | nil => simp [parse1, NodeM.abs, NodeM.repOk, NodeM.isRaw, absPairs, repPairs, countLive]
+    | nil => simp [parse1, NodeM.abs, NodeM.repOk, NodeM.isRaw, absPairs, repPairs, countLive, ixOk]
     | cons y ys =>
       cases lock
       · simp [parse1, NodeM.abs, NodeM.repOk, NodeM.isRaw, absPairs, repPairs, allLivePairs]
